@@ -87,9 +87,58 @@ pub struct Record {
 #[derive(Debug, Clone, PartialEq, Serialize, Deserialize)]
 pub struct Scenario {
     pub records: Vec<Record>,
+    /// A byte vector whose length sits at the decoder's allocation limit: (delta to the limit,
+    /// fill byte). Built at run time (100 MiB does not belong in a replay file).
+    #[serde(default)]
+    pub giant: Option<(i8, u8)>,
 }
 
 pub struct Wire;
+
+/// A witness of limit−1 / limit / limit+1 bytes: at or below the limit it must decode, consume
+/// exactly its encoded size and encode again to the same bytes; above it, it must be refused.
+fn run_giant(delta: i8, fill: u8, ctx: &mut RunCtx) {
+    use fuel_types::canonical::VEC_DECODE_LIMIT;
+    let len = (VEC_DECODE_LIMIT as i64 + delta as i64) as usize;
+    let padded = len.div_ceil(8) * 8;
+    let mut bytes = Vec::with_capacity(8 + padded);
+    bytes.extend_from_slice(&(len as u64).to_be_bytes());
+    bytes.resize(8 + len, fill);
+    bytes.resize(8 + padded, 0);
+    ctx.stats.inc("probe.vector_at_allocation_limit");
+    let mut rest: &[u8] = &bytes;
+    let r = fuel_tx::Witness::decode(&mut rest);
+    ctx.event("giant", (delta as i64 + 1) as u64, r.is_ok() as u64);
+    match r {
+        Ok(w) => {
+            if len > VEC_DECODE_LIMIT {
+                ctx.violate("wire-limit", "wire-limit:accepted-above-limit", format!("a byte vector of {len} bytes (limit {VEC_DECODE_LIMIT}) was decoded"));
+                return;
+            }
+            let consumed = bytes.len() - rest.len();
+            if consumed != w.size() || consumed != bytes.len() {
+                ctx.violate("wire-size", "wire-size:consumed-vs-size", format!("a witness of {len} bytes: decode consumed {consumed}, the value reports size {}, the encoding had {}", w.size(), bytes.len()));
+                return;
+            }
+            let mut out = Vec::with_capacity(bytes.len());
+            match w.encode(&mut out) {
+                Ok(()) => {
+                    if out != bytes {
+                        ctx.violate("wire-roundtrip", "wire-roundtrip:reencode-differs", format!("a witness of {len} bytes encodes to different bytes than it was decoded from"));
+                    }
+                }
+                Err(e) => {
+                    ctx.violate("wire-roundtrip", "wire-roundtrip:decoded-value-does-not-encode", format!("a witness of {len} bytes (limit {VEC_DECODE_LIMIT}) was decoded but its encoding fails with {e:?}"));
+                }
+            }
+        }
+        Err(e) => {
+            if len <= VEC_DECODE_LIMIT {
+                ctx.violate("wire-limit", "wire-limit:refused-within-limit", format!("a byte vector of {len} bytes (limit {VEC_DECODE_LIMIT}) was refused with {e:?}"));
+            }
+        }
+    }
+}
 
 trait WireTy: CSerialize + CDeserialize + PartialEq + core::fmt::Debug {}
 impl<T: CSerialize + CDeserialize + PartialEq + core::fmt::Debug> WireTy for T {}
@@ -580,7 +629,9 @@ impl Engine for Wire {
                 plan::record(&mut f, m, &mades, swarm.as_ref(), calls)
             })
             .collect();
-        Scenario { records }
+        // one run in 16384: a byte vector of exactly limit−1 / limit / limit+1 bytes
+        let giant = if g.below(16384) == 0 { Some((g.below(3) as i8 - 1, g.below(256) as u8)) } else { None };
+        Scenario { records, giant }
     }
 
     fn run(_prop: &str, sc: &Scenario, ctx: &mut RunCtx) {
@@ -589,24 +640,33 @@ impl Engine for Wire {
                 return;
             }
         }
+        if let Some((delta, fill)) = sc.giant {
+            run_giant(delta, fill, ctx);
+        }
     }
 
     fn shrink(_prop: &str, sc: &Scenario) -> Vec<Scenario> {
         let mut out = Vec::new();
+        if sc.giant.is_some() {
+            out.push(Scenario { records: sc.records.clone(), giant: None });
+            if !sc.records.is_empty() {
+                out.push(Scenario { records: Vec::new(), giant: sc.giant });
+            }
+        }
         let n = sc.records.len();
         if n > 1 {
-            out.push(Scenario { records: sc.records[..n / 2].to_vec() });
-            out.push(Scenario { records: sc.records[n / 2..].to_vec() });
+            out.push(Scenario { records: sc.records[..n / 2].to_vec(), giant: sc.giant });
+            out.push(Scenario { records: sc.records[n / 2..].to_vec(), giant: sc.giant });
             for i in (0..n).rev() {
                 let mut r = sc.records.clone();
                 r.remove(i);
-                out.push(Scenario { records: r });
+                out.push(Scenario { records: r, giant: sc.giant });
             }
         }
         let with = |i: usize, f: &dyn Fn(&mut Record)| {
             let mut r = sc.records.clone();
             f(&mut r[i]);
-            Scenario { records: r }
+            Scenario { records: r, giant: sc.giant }
         };
         for i in 0..n {
             let rec = &sc.records[i];
